@@ -18,7 +18,7 @@ CoreJets == IF TLCGet(9) = "elements" THEN TLCGet(8) ELSE TLCGet(7)
 VARIABLE l
 AllocC0 == 50331648
 AllocK == 65536
-MsMax == 5000
+MsMax == 20000
 S(x) == ToString(x)
 RECURSIVE UzV(_)
 UzV(v) == IF v[1] = "bits" THEN WordVal(v[2], v[3])
@@ -34,14 +34,24 @@ WitOf(w) == [i \in 1..Len(w) |-> UzV(w[i])]
    properties leave that case open (C02 says so explicitly; C01 asks for the same types at every node, which no decoder
    can deliver once the branch is gone), so for such programs the clause is totality plus the root when decoding succeeds. *)
 Attached(e) == \E i \in 1..Len(e.cdag) : e.cdag[i][1] = "disc" /\ e.cdag[i][3] # 0
+(* C01 also restricts the commitment-time clause to programs in which sub-expressions containing witness or disconnect
+   nodes occur once ("the library treats them as unique there"): a construction DAG that uses such a sub-expression
+   twice is serialised by object identity and need not decode.  WdFlags: per node, does it contain a witness or a
+   disconnect (children come before parents in the construction order). *)
+RECURSIVE WdFlags(_, _)
+WdFlags(d, i) == IF i = 0 THEN <<>>
+                 ELSE LET f == WdFlags(d, i - 1) IN
+                      Append(f, d[i][1] \in {"witness", "disc"} \/ (d[i][2] # 0 /\ f[d[i][2]]) \/ (d[i][3] # 0 /\ f[d[i][3]]))
+Uses(d, i) == Cardinality({j \in 1..Len(d) : d[j][2] = i}) + Cardinality({j \in 1..Len(d) : d[j][3] = i})
+WitnessPartsOnce(e) == \A f \in {WdFlags(e.cdag, Len(e.cdag))} : \A i \in 1..Len(e.cdag) : f[i] => Uses(e.cdag, i) <= 1
 ClausesC01(e) ==
   LET d == e.dag  t == TyOf(e.ty)  w == WitOf(e.wit)
       rd == e.rt.redeem IN
   <<
    \* 1: the crate's own round trip at redemption time
    rd.res = "ok" /\ rd.same_bytes /\ rd.same_nodes /\ rd.same_root,
-   \* 2: and at commitment time (without attached branches; with them: an answer, and the same root if it is a program)
-   IF Attached(e) THEN e.commit.out \in {"ok", "err"} /\ (e.commit.out = "ok" => e.commit.same_cmr)
+   \* 2: and at commitment time (without attached branches, witness parts used once; otherwise: an answer, and the same root if it is a program)
+   IF Attached(e) \/ ~WitnessPartsOnce(e) THEN e.commit.out \in {"ok", "err"} /\ (e.commit.out = "ok" => e.commit.same_cmr)
    ELSE e.commit.out = "ok" /\ e.commit.same_cmr /\ (e.commit.attached \/ e.commit.reenc_prog),
    \* 3: the crate's arrows are a typing of the program
    WellTyped(d, t, TRUE),
